@@ -9,7 +9,7 @@ pub fn year_window(tax_year_start: i32, disposal_date: NaiveDate) -> Result<bool
         chrono::NaiveDate::from_ymd_opt(tax_year_start, 4, 6).ok_or(CgtError::InvalidDateYear {
             year: tax_year_start,
         })?;
-    let end_date = chrono::NaiveDate::from_ymd_opt(tax_year_start + 1, 4, 6).ok_or(
+    let end_date = chrono::NaiveDate::from_ymd_opt(tax_year_start + 1, 4, 5).ok_or(
         CgtError::InvalidDateYear {
             year: tax_year_start + 1,
         },
